@@ -1,5 +1,5 @@
 import StepModel.P21.Writer
-import StepModel.P21.ReaderLemmas7
+import StepModel.P21.ReaderLemmas8
 import StepModel.Generated.P21RWGen
 /-! # C01 — exchange files survive read-then-write: property theorems
 
@@ -133,6 +133,63 @@ theorem C01_read_record_of_params {F} (env : Env F) (strict : Bool) (ps : List (
       .ok ⟨.null, ps.map (·.v), G ((40 :: renderParams ps).reverse ++ l) rest sk'⟩ :=
   instSTEPread_params env strict ps hne hok l sk rest
 
+/-- the values that may stand between the parentheses of a typed SELECT value `KEYWORD(value)`: INTEGER, REAL (also for
+    a NUMBER member), STRING, ENUMERATION / BOOLEAN / LOGICAL, BINARY — under the provisos of the attribute of that kind -/
+inductive LeafCovered {F} (env : Env F) (m : SelMember) : List Byte → Atom F → Prop where
+  | integer (hm : m.ty = .integer) (tok : List Byte) (htok : isInteger tok = true) (hlo : IStream.longMin ≤ denoteInteger tok)
+      (hhi : denoteInteger tok < IStream.longMax) : LeafCovered env m tok (.int (denoteInteger tok))
+  | real (hm : m.ty = .real ∨ m.ty = .number) (tok : List Byte) (dec : Decimal) (v : F) (htok : isReal tok = true)
+      (hden : denoteReal tok = some dec) (hv : env.ops.ofDecimal dec = some v) (hnn : env.ops.isRealNull v = false)
+      (hbuf : env.lex.realBuf = 0 ∨ tok.length < env.lex.realBuf) : LeafCovered env m tok (.real v)
+  | string (hm : m.ty = .string) (b : List Byte) (hsb : StringBody b) :
+      LeafCovered env m (39 :: (b ++ [39])) (.str (39 :: (b ++ [39])))
+  | enum (het : EnumTy m.ty) (name : List Byte) (i : Nat) (hne : name ≠ []) (hname : name.all pw = true)
+      (hfind : findName (enumKindOf m.ty).table (name.map toUpper) = some i) (hset : (enumKindOf m.ty).isUnsetIdx i = false) :
+      LeafCovered env m (46 :: (name ++ [46])) (.enum i)
+  | binary (hm : m.ty = .binary) (hex : List Byte) (hne : hex ≠ []) (hhex : hex.all isXDigit = true) :
+      LeafCovered env m (34 :: (hex ++ [34])) (.bin hex)
+
+theorem leafCovered_rd {F} (env : Env F) (hcfg : env.lex.criSkipsComments = true) (m : SelMember) (tok : List Byte) (a : Atom F)
+    (h : LeafCovered env m tok a) : LeafRd env m tok a := by
+  cases h with
+  | integer hm tok htok hlo hhi => exact LeafRd.integer env hcfg m hm tok htok hlo hhi
+  | real hm tok dec v htok hden hv hnn hbuf => exact LeafRd.real env hcfg m hm tok dec v htok hden hv hnn hbuf
+  | string hm b hsb => exact LeafRd.string env m hm b hsb
+  | enum het name i hne hname hfind hset => exact LeafRd.enum env m het name i hne hname hfind hset
+  | binary hm hex hne hhex => exact LeafRd.binary env m hm hex hne hhex
+
+theorem leafCovered_scan {F} (env : Env F) (m : SelMember) (tok : List Byte) (a : Atom F) (h : LeafCovered env m tok a) :
+    PassesS tok := by
+  cases h with
+  | integer hm tok htok hlo hhi => exact (Passes.all_plain _ (isInteger_plain _ htok)).toS
+  | real hm tok dec v htok hden hv hnn hbuf => exact (Passes.all_plain _ (isReal_plain _ htok)).toS
+  | string hm b hsb => exact PassesS.string b hsb
+  | enum het name i hne hname hfind hset =>
+    exact (Passes.append (a := [46]) (Passes.plain 46 (by decide))
+      (Passes.append (Passes.all_plain _ (all_imp (fun c => pw_plain) _ hname)) (Passes.plain 46 (by decide)))).toS
+  | binary hm hex hne hhex =>
+    exact (Passes.append (a := [34]) (Passes.plain 34 (by decide))
+      (Passes.append (Passes.all_plain _ (all_imp (fun c => xdigit_plain) _ hhex)) (Passes.plain 34 (by decide)))).toS
+
+theorem kwc_selc {c : Byte} (h : kwc c = true) : selc c = true := by
+  simp [kwc, selc, isAlnum, isAlpha, isUpper, isLower, isDigit, isSpace] at *; bomega
+
+/-- `SkipInstance` gets over a typed select value -/
+theorem selText_scan {F} (env : Env F) (m : SelMember) (n0 : Byte) (ns : List Byte) (hn0 : isAlpha n0 = true) (hns : ns.all kwc = true)
+    (tok : List Byte) (a : Atom F) (hleaf : LeafCovered env m tok a) (sB sC : List Byte) (hsB : sB.all isSpace = true)
+    (hsC : sC.all isSpace = true) : Passes (selText n0 ns sB tok sC) := by
+  obtain ⟨_, _, _, _, _, _, _, hn0k, _⟩ := alpha_facts hn0
+  have hname : Passes (n0 :: ns) :=
+    Passes.all_plain _ (all_imp (fun c => kwc_plain) _ (by simp only [List.all_cons, hn0k, Bool.true_and]; exact hns))
+  have hC : Passes (sC ++ [41]) := Passes.append (Passes.seps (Seps.blanks sC hsC)) (Passes.plain 41 (by decide))
+  obtain ⟨y, ys, hy, hy39⟩ : ∃ y ys, sC ++ [41] = y :: ys ∧ y ≠ 39 :=
+    seps_then sC (Seps.blanks sC hsC) 41 [] (fun c => c ≠ 39) (fun c hc h => by rw [h] at hc; exact absurd hc (by decide)) (by decide) (by decide)
+  rw [hy] at hC
+  have hT : Passes (tok ++ (sC ++ [41])) := by rw [hy]; exact PassesS.append_cons (leafCovered_scan env m tok a hleaf) hC hy39
+  have e : selText n0 ns sB tok sC = (n0 :: ns) ++ ([40] ++ (sB ++ (tok ++ (sC ++ [41])))) := by simp [selText]
+  rw [e]
+  exact Passes.append hname (Passes.append (Passes.plain 40 (by decide)) (Passes.append (Passes.seps (Seps.blanks sB hsB)) hT))
+
 /-- the element kinds of aggregates for which the element loop is proved: INTEGER, REAL, STRING, ENUMERATION / BOOLEAN /
     LOGICAL, BINARY and entity references, each under the same provisos as the attribute of that kind, with any layout
     before and after the element -/
@@ -159,6 +216,18 @@ inductive ElemCovered {F} (env : Env F) : ElemTy → ElemG F → Prop where
       (before after : List Byte) (hb : Seps before) (ha : Seps after) :
       ElemCovered env (.entity tg) { tok := 35 :: ds, before := before, after := after,
                                      v := .atom (.ref ((digitsVal ds 0 : Nat) : Int)) }
+  | selTyped (n : String) (sd : SelectD) (hsd : env.dict.select? n = some sd) (m : SelMember) (n0 : Byte) (ns : List Byte)
+      (hn0 : isAlpha n0 = true) (hns : ns.all kwc = true)
+      (hfind : sd.members.find? (fun x => x.name == bytesToString (upperBytes (n0 :: ns)) && !x.ty.isEntity) = some m)
+      (tok : List Byte) (av : Atom F) (hleaf : LeafCovered env m tok av) (sB sC : List Byte) (hsB : sB.all isSpace = true)
+      (hsC : sC.all isSpace = true) (before after : List Byte) (hb : Seps before) (ha : Seps after) :
+      ElemCovered env (.select n) { tok := selText n0 ns sB tok sC, before := before, after := after, v := .sel m.name av }
+  | selRef (n : String) (sd : SelectD) (hsd : env.dict.select? n = some sd) (m : SelMember)
+      (ds : List Byte) (hne : ds ≠ []) (hds : ds.all isDigit = true) (hhi : ((digitsVal ds 0 : Nat) : Int) ≤ IStream.intMax)
+      (hasg : assignEntity env sd ((digitsVal ds 0 : Nat) : Int) = some m)
+      (before after : List Byte) (hb : Seps before) (ha : Seps after) :
+      ElemCovered env (.select n) { tok := 35 :: ds, before := before, after := after,
+                                    v := .sel m.name (.ref ((digitsVal ds 0 : Nat) : Int)) }
 
 theorem elemCovered_rd {F} (env : Env F) (hcfg : env.lex.criSkipsComments = true) (hagg : env.cfg.aggrSkipsComments = true)
     (ety : ElemTy) (e : ElemG F) (h : ElemCovered env ety e) : ElemRd env ety e := by
@@ -172,6 +241,11 @@ theorem elemCovered_rd {F} (env : Env F) (hcfg : env.lex.criSkipsComments = true
   | binary hex hne hhex before after hb ha => exact ElemRd.binary env hcfg hagg hex hne hhex before after hb ha
   | ref tg ds hne hds hhi hfound before after hb ha =>
     exact ElemRd.ref env hcfg hagg tg ds hne hds hhi hfound before after hb ha
+  | selTyped n sd hsd m n0 ns hn0 hns hfind tok av hleaf sB sC hsB hsC before after hb ha =>
+    exact ElemRd.selTyped env hcfg hagg n sd hsd m n0 ns hn0 (all_imp (fun c => kwc_selc) _ hns) hfind tok av
+      (leafCovered_rd env hcfg m tok av hleaf) sB sC hsB hsC before after hb ha
+  | selRef n sd hsd m ds hne hds hhi hasg before after hb ha =>
+    exact ElemRd.selRef env hcfg hagg n sd hsd m ds hne hds hhi hasg before after hb ha
 
 theorem elemCovered_scan {F} (env : Env F) (ety : ElemTy) (e : ElemG F) (h : ElemCovered env ety e) : ElemScan e := by
   cases h with
@@ -185,6 +259,11 @@ theorem elemCovered_scan {F} (env : Env F) (ety : ElemTy) (e : ElemG F) (h : Ele
     exact ⟨(Passes.append (a := [34]) (Passes.plain 34 (by decide))
       (Passes.append (Passes.all_plain _ (all_imp (fun c => xdigit_plain) _ hhex)) (Passes.plain 34 (by decide)))).toS, hb, ha⟩
   | ref tg ds hne hds hhi hfound before after hb ha =>
+    exact ⟨(Passes.append (a := [35]) (Passes.plain 35 (by decide))
+      (Passes.all_plain _ (all_imp (fun c => digit_plain) _ hds))).toS, hb, ha⟩
+  | selTyped n sd hsd m n0 ns hn0 hns hfind tok av hleaf sB sC hsB hsC before after hb ha =>
+    exact ⟨(selText_scan env m n0 ns hn0 hns tok av hleaf sB sC hsB hsC).toS, hb, ha⟩
+  | selRef n sd hsd m ds hne hds hhi hasg before after hb ha =>
     exact ⟨(Passes.append (a := [35]) (Passes.plain 35 (by decide))
       (Passes.all_plain _ (all_imp (fun c => digit_plain) _ hds))).toS, hb, ha⟩
 
@@ -243,6 +322,20 @@ inductive Covered {F} (env : Env F) : Param F → Prop where
       (es : List (ElemG F)) (inner : List Byte) (hok : ∀ e ∈ es, ElemCovered env ety e) (hin : Seps inner)
       (before after : List Byte) (hb : Seps before) (ha : Seps after) :
       Covered env { a := a, v := .aggr (es.map (·.v)), tok := aggrTextG es inner, before := before, after := after }
+  | selTyped (a : AttrD) (n : String) (hty : a.ty = .one (.select n)) (hder : a.derived = false) (hred : a.redefining = false)
+      (sd : SelectD) (hsd : env.dict.select? n = some sd) (m : SelMember) (n0 : Byte) (ns : List Byte)
+      (hn0 : isAlpha n0 = true) (hns : ns.all kwc = true)
+      (hfind : sd.members.find? (fun x => x.name == bytesToString (upperBytes (n0 :: ns)) && !x.ty.isEntity) = some m)
+      (tok : List Byte) (av : Atom F) (hleaf : LeafCovered env m tok av) (sB sC : List Byte) (hsB : sB.all isSpace = true)
+      (hsC : sC.all isSpace = true) (before after : List Byte) (hb : Seps before) (ha : Seps after) :
+      Covered env { a := a, v := .one (.sel m.name av), tok := selText n0 ns sB tok sC, before := before, after := after }
+  | selRef (a : AttrD) (n : String) (hty : a.ty = .one (.select n)) (hder : a.derived = false) (hred : a.redefining = false)
+      (sd : SelectD) (hsd : env.dict.select? n = some sd) (m : SelMember)
+      (ds : List Byte) (hne : ds ≠ []) (hds : ds.all isDigit = true) (hhi : ((digitsVal ds 0 : Nat) : Int) ≤ IStream.intMax)
+      (hasg : assignEntity env sd ((digitsVal ds 0 : Nat) : Int) = some m)
+      (before after : List Byte) (hb : Seps before) (ha : Seps after) :
+      Covered env { a := a, v := .one (.sel m.name (.ref ((digitsVal ds 0 : Nat) : Int))), tok := 35 :: ds,
+                    before := before, after := after }
   | number (a : AttrD) (hty : a.ty = .one .number) (hder : a.derived = false) (hred : a.redefining = false)
       (tok : List Byte) (dec : Decimal) (v : F) (htok : isReal tok = true ∨ isInteger tok = true)
       (hden : denoteReal tok = some dec) (hv : env.ops.ofDecimal dec = some v) (hnn : env.ops.isRealNull v = false)
@@ -274,6 +367,15 @@ theorem covered_ok {F} (env : Env F) (strict : Bool) (hcfg : env.lex.criSkipsCom
     obtain ⟨sk', _, h⟩ := attr_aggr env strict a ety hty hder hcfg hagg es inner
       (fun e he => elemCovered_rd env hcfg hagg ety e (hok e he)) hin l sk after ha d rest hd
     exact ⟨sk', h⟩
+  | selTyped a n hty hder hred sd hsd m n0 ns hn0 hns hfind tok av hleaf sB sC hsB hsC before after hb ha =>
+    obtain ⟨hn0s, hn047, _, _, _, _, _, _, hn092⟩ := alpha_facts hn0
+    refine ⟨hred, ⟨n0, _, rfl, hn0s, hn047, hn092⟩, hb, fun l sk d rest hd => ?_⟩
+    obtain ⟨sk', _, h⟩ := attr_select_typed env strict a n hty hder hcfg sd hsd m n0 ns hn0 (all_imp (fun c => kwc_selc) _ hns) hfind
+      tok av (leafCovered_rd env hcfg m tok av hleaf) sB sC hsB hsC l sk after ha d rest hd
+    exact ⟨sk', h⟩
+  | selRef a n hty hder hred sd hsd m ds hne hds hhi hasg before after hb ha =>
+    exact ⟨hred, ⟨35, ds, rfl, by decide, by decide, by decide⟩, hb, fun l sk d rest hd =>
+      ⟨sk, attr_select_ref env strict a n hty hder hcfg sd hsd m ds hne hds hhi hasg l sk after ha d rest hd⟩⟩
   | number a hty hder hred tok dec v htok hden hv hnn before after hbf ha =>
     obtain ⟨c, u, hcu, hcs, _, _, _, h47, h92⟩ := number_head tok htok
     exact ⟨hred, ⟨c, u, hcu, hcs, h47, h92⟩, hbf, fun l sk d rest hd =>
@@ -308,6 +410,11 @@ theorem covered_rd {F} (env : Env F) (strict : Bool) (hcfg : env.lex.criSkipsCom
   | aggr a ety hty hder hred es inner hok hin before after hb ha =>
     exact attr_aggr env strict a ety hty hder hcfg hagg es inner
       (fun e he => elemCovered_rd env hcfg hagg ety e (hok e he)) hin l sk after ha d rest hd
+  | selTyped a n hty hder hred sd hsd m n0 ns hn0 hns hfind tok av hleaf sB sC hsB hsC before after hb ha =>
+    exact attr_select_typed env strict a n hty hder hcfg sd hsd m n0 ns hn0 (all_imp (fun c => kwc_selc) _ hns) hfind
+      tok av (leafCovered_rd env hcfg m tok av hleaf) sB sC hsB hsC l sk after ha d rest hd
+  | selRef a n hty hder hred sd hsd m ds hne hds hhi hasg before after hb ha =>
+    exact ⟨sk, Or.inl rfl, attr_select_ref env strict a n hty hder hcfg sd hsd m ds hne hds hhi hasg l sk after ha d rest hd⟩
   | number a hty hder hred tok dec v htok hden hv hnn before after hbf ha =>
     exact ⟨sk, Or.inl rfl, attr_number env strict a hty hder hcfg tok dec v htok hden hv hnn l sk after ha d rest hd⟩
 
@@ -507,6 +614,11 @@ theorem covered_scan {F} (env : Env F) (p : Param F) (h : Covered env p) : Param
     exact ⟨(Passes.all_plain _ (isReal_plain _ htok)).toS, hbf, ha⟩
   | aggr a ety hty hder hred es inner hok hin before after hb ha =>
     exact ⟨(Passes.aggrTextG es inner (fun e he => elemCovered_scan env ety e (hok e he)) hin).toS, hb, ha⟩
+  | selTyped a n hty hder hred sd hsd m n0 ns hn0 hns hfind tok av hleaf sB sC hsB hsC before after hb ha =>
+    exact ⟨(selText_scan env m n0 ns hn0 hns tok av hleaf sB sC hsB hsC).toS, hb, ha⟩
+  | selRef a n hty hder hred sd hsd m ds hne hds hhi hasg before after hb ha =>
+    exact ⟨(Passes.append (a := [35]) (Passes.plain 35 (by decide))
+      (Passes.all_plain _ (all_imp (fun c => digit_plain) _ hds))).toS, hb, ha⟩
   | number a hty hder hred tok dec v htok hden hv hnn before after hbf ha =>
     exact ⟨(Passes.all_plain _ (by rcases htok with h | h; exact isReal_plain _ h; exact isInteger_plain _ h)).toS, hbf, ha⟩
 
